@@ -41,6 +41,7 @@ HARNESSES = {
     'kb_ticks_monotone': {'kind': 'bounded', 'domain': 'seconds i/1024 for i < 2^30', 'timeout': 900, 'tier': 'thorough'},
     'kb_stats_secs': {'kind': 'bounded', 'domain': 'tick counts below 2^32', 'timeout': 900, 'tier': 'thorough'},
     'kb_total_duration': {'kind': 'bounded', 'domain': 'up to 4 durations, all u32 values', 'timeout': 300, 'tier': 'quick'},
+    'kb_total_duration_fits': {'kind': 'bounded', 'domain': 'up to 3 samples, all u32 / absent durations, all u64 timestamps', 'timeout': 600, 'tier': 'quick'},
     'kb_from_samples_0': {'kind': 'bounded', 'domain': '0 samples', 'timeout': 300, 'tier': 'quick'},
     'kb_from_samples_1': {'kind': 'bounded', 'domain': '1 sample, payload 1..2 bytes, all u64 pts/dts, all flags/durations/fallback', 'timeout': 300, 'tier': 'quick'},
     'kb_from_samples_2': {'kind': 'bounded', 'domain': '2 samples, payload 1..2 bytes, all u64 pts/dts, all flags/durations/fallback', 'timeout': 600, 'tier': 'quick'},
